@@ -622,11 +622,13 @@ class printcore():
         if not (self.printing and self.printer and self.online):
             self.clear = True
             return
-        if self.resendfrom < self.lineno and self.resendfrom > -1:
+        # Read the shared value once: the read thread may store a new
+        # resend request between the test and its use
+        lineno = self.resendfrom
+        if lineno < self.lineno and lineno > -1:
             # Advance before sending: a new resend request for this very
             # line may be read as soon as it is written and must not be
             # overwritten by the increment
-            lineno = self.resendfrom
             self.resendfrom = lineno + 1
             self._send(self.sentlines[lineno], lineno, False)
             return
